@@ -48,6 +48,35 @@
 #define VF_DNS_NS(p)		VF_DNS_BE16(p, 8)
 #define VF_DNS_AR(p)		VF_DNS_BE16(p, 10)
 
+/*
+ * Postconditions of the two functions that WRITE through a moving cursor, as plain C
+ * macros: used verbatim in the __CPROVER_ensures clauses below and as assertions of the
+ * plain-mode (non --dfcc) unbounded harness harness/C13/dns_labels_plain.c, see HOWTO
+ * "Pointer facts in loop invariants" and the note in obligations/C13.d/dns.json.
+ */
+#define VF_DNS_POST_SOL2NAME_RV(rv)						\
+	((rv) == 0 || (rv) == EINVAL || (rv) == EOVERFLOW || (rv) == EOPNOTSUPP || (rv) == EBADMSG)
+#define VF_DNS_POST_SOL2NAME_EINVAL(rv, buf, buf_size, name, name_buf_size)	\
+	(((rv) == EINVAL) == ((buf) == NULL || (buf_size) == 0 || (name) == NULL || (name_buf_size) == 0))
+#define VF_DNS_POST_SOL2NAME_EOVERFLOW(rv, buf_size, name_buf_size)		\
+	((rv) != EOVERFLOW || (name_buf_size) < (buf_size) - 1)
+#define VF_DNS_POST_SOL2NAME_LEN(rv, buf_size, name_len_ret)			\
+	((rv) != 0 || (name_len_ret) == NULL || (1 <= *(name_len_ret) && *(name_len_ret) <= (buf_size)))
+
+#define VF_DNS_POST_L2N_RV(rv)							\
+	((rv) == 0 || (rv) == EINVAL || (rv) == EBADMSG || (rv) == EOPNOTSUPP || (rv) == ELOOP || \
+	 (rv) == EOVERFLOW)
+#define VF_DNS_POST_L2N_EINVAL(rv, hdr, msg_size, offset, name, name_buf_size)	\
+	(((rv) == EINVAL) == ((hdr) == NULL || (name) == NULL || (name_buf_size) == 0 ||	\
+	    (offset) < VF_DNS_HDR_SIZE || (offset) > (msg_size)))
+/* text + NUL fit the caller's buffer, and the NUL is where the reported length says */
+#define VF_DNS_POST_L2N_TEXT(rv, name, name_buf_size, name_len_ret)		\
+	((rv) != 0 || (name_len_ret) == NULL ||					\
+	    (*(name_len_ret) < (name_buf_size) && (name)[*(name_len_ret)] == 0))
+/* loud failure: the length that did not fit is reported */
+#define VF_DNS_POST_L2N_EOVERFLOW(rv, name_buf_size, name_len_ret)		\
+	((rv) != EOVERFLOW || (name_len_ret) == NULL || *(name_len_ret) >= (name_buf_size))
+
 #ifndef VF_REPLAY
 #define VF_RV			__CPROVER_return_value
 /* received message: NULL, empty, or exactly msg_size readable bytes */
@@ -85,14 +114,11 @@ __CPROVER_requires(name == NULL || name_buf_size == 0 || __CPROVER_is_fresh(name
 __CPROVER_requires(VF_OUT_OPT(name_len_ret, size_t))
 __CPROVER_assigns(name != NULL && name_buf_size != 0: __CPROVER_object_upto(name, name_buf_size))
 __CPROVER_assigns(name_len_ret != NULL: *name_len_ret)
-__CPROVER_ensures(VF_RV == 0 || VF_RV == EINVAL || VF_RV == EOVERFLOW ||
-    VF_RV == EOPNOTSUPP || VF_RV == EBADMSG)
-__CPROVER_ensures((VF_RV == EINVAL) == (buf == NULL || buf_size == 0 || name == NULL ||
-    name_buf_size == 0))
-__CPROVER_ensures((VF_RV == EOVERFLOW) ==> (name_buf_size < buf_size - 1))
+__CPROVER_ensures(VF_DNS_POST_SOL2NAME_RV(VF_RV))
+__CPROVER_ensures(VF_DNS_POST_SOL2NAME_EINVAL(VF_RV, buf, buf_size, name, name_buf_size))
+__CPROVER_ensures(VF_DNS_POST_SOL2NAME_EOVERFLOW(VF_RV, buf_size, name_buf_size))
 /* consumed size lies inside the buffer */
-__CPROVER_ensures((VF_RV == 0 && name_len_ret != NULL) ==>
-    (1 <= *name_len_ret && *name_len_ret <= buf_size))
+__CPROVER_ensures(VF_DNS_POST_SOL2NAME_LEN(VF_RV, buf_size, name_len_ret))
 ;
 
 /* ------------------------------------------------------------------------------
@@ -123,15 +149,10 @@ __CPROVER_requires(name == NULL || name_buf_size == 0 || __CPROVER_is_fresh(name
 __CPROVER_requires(VF_OUT_OPT(name_len_ret, size_t))
 __CPROVER_assigns(name != NULL && name_buf_size != 0: __CPROVER_object_upto(name, name_buf_size))
 __CPROVER_assigns(name_len_ret != NULL: *name_len_ret)
-__CPROVER_ensures(VF_RV == 0 || VF_RV == EINVAL || VF_RV == EBADMSG ||
-    VF_RV == EOPNOTSUPP || VF_RV == ELOOP || VF_RV == EOVERFLOW)
-__CPROVER_ensures((VF_RV == EINVAL) == (hdr == NULL || name == NULL || name_buf_size == 0 ||
-    offset < VF_DNS_HDR_SIZE || offset > msg_size))
-/* text + NUL fit the caller's buffer, and the NUL is where the reported length says */
-__CPROVER_ensures((VF_RV == 0 && name_len_ret != NULL) ==>
-    (*name_len_ret < name_buf_size && name[*name_len_ret] == 0))
-/* loud failure: the length that did not fit is reported */
-__CPROVER_ensures((VF_RV == EOVERFLOW && name_len_ret != NULL) ==> *name_len_ret >= name_buf_size)
+__CPROVER_ensures(VF_DNS_POST_L2N_RV(VF_RV))
+__CPROVER_ensures(VF_DNS_POST_L2N_EINVAL(VF_RV, hdr, msg_size, offset, name, name_buf_size))
+__CPROVER_ensures(VF_DNS_POST_L2N_TEXT(VF_RV, name, name_buf_size, name_len_ret))
+__CPROVER_ensures(VF_DNS_POST_L2N_EOVERFLOW(VF_RV, name_buf_size, name_len_ret))
 ;
 
 /* ------------------------------------------------------------------------------
@@ -149,6 +170,12 @@ __CPROVER_ensures((VF_RV == EOVERFLOW && name_len_ret != NULL) ==> *name_len_ret
 	__CPROVER_assigns(name != NULL && name_len != NULL && *name_len != 0:	\
 	    __CPROVER_object_upto(name, *name_len))				\
 	__CPROVER_assigns(name != NULL && name_len != NULL: *name_len)
+/* Offsets of the question / RR accessors: 0 (rejected by the code) or a position after the
+ * header.  Offsets 1..11 -- inside the header -- are accepted by the code when no name is
+ * requested, but the accessors then form `(size_t)hdr + offset + name_size - sizeof(uint8_t*)`
+ * below the start of the message object, an integer round trip CBMC's pointer model cannot
+ * follow; no in-tree caller passes such an offset (dns_msg_info_get starts at 12). */
+#define VF_DNS_OFFSET_ARG(offset)	((offset) == 0 || (offset) >= VF_DNS_HDR_SIZE)
 #define VF_DNS_GET_DATA_RV							\
 	(VF_RV == 0 || VF_RV == EINVAL || VF_RV == EBADMSG || VF_RV == EOPNOTSUPP || \
 	 VF_RV == ELOOP || VF_RV == EOVERFLOW)
@@ -158,6 +185,7 @@ dns_msg_question_get_data(dns_hdr_p hdr, size_t msg_size, size_t offset,
     uint8_t *name, size_t *name_len, uint16_t *query_type, uint16_t *query_class,
     size_t *question_size_ret)
 __CPROVER_requires(msg_size <= VF_DNS_MSG_MAX)
+__CPROVER_requires(VF_DNS_OFFSET_ARG(offset))
 __CPROVER_requires(VF_DNS_MSG(hdr, msg_size))
 VF_DNS_NAMEARG_PRE(name, name_len)
 __CPROVER_requires(VF_OUT_OPT(query_type, uint16_t))
@@ -168,10 +196,14 @@ __CPROVER_assigns(query_type != NULL: *query_type)
 __CPROVER_assigns(query_class != NULL: *query_class)
 __CPROVER_assigns(question_size_ret != NULL: *question_size_ret)
 __CPROVER_ensures(VF_DNS_GET_DATA_RV)
+/* the name walker's codes (EOPNOTSUPP, ELOOP, EOVERFLOW) only when a name was requested */
+__CPROVER_ensures((name == NULL || name_len == NULL) ==>
+    (VF_RV == 0 || VF_RV == EINVAL || VF_RV == EBADMSG))
 __CPROVER_ensures((hdr == NULL || offset == 0 || offset > msg_size) ==> VF_RV == EINVAL)
 /* the question (name + 4 fixed bytes) lies inside the message */
 __CPROVER_ensures((VF_RV == 0 && question_size_ret != NULL) ==>
-    (1 + VF_DNS_Q_FIXED <= *question_size_ret && offset + *question_size_ret <= msg_size))
+    (1 + VF_DNS_Q_FIXED <= *question_size_ret && offset <= msg_size &&
+     *question_size_ret <= msg_size - offset))
 __CPROVER_ensures((VF_RV == 0 && name != NULL && name_len != NULL) ==>
     (*name_len < __CPROVER_old(*name_len) && name[*name_len] == 0))
 ;
@@ -180,13 +212,15 @@ static inline int
 dns_msg_question_get_size(dns_hdr_p hdr, size_t msg_size, size_t offset,
     size_t *question_size_ret)
 __CPROVER_requires(msg_size <= VF_DNS_MSG_MAX)
+__CPROVER_requires(VF_DNS_OFFSET_ARG(offset))
 __CPROVER_requires(VF_DNS_MSG(hdr, msg_size))
 __CPROVER_requires(VF_OUT_OPT(question_size_ret, size_t))
 __CPROVER_assigns(question_size_ret != NULL: *question_size_ret)
 __CPROVER_ensures(VF_RV == 0 || VF_RV == EINVAL || VF_RV == EBADMSG)
 __CPROVER_ensures((hdr == NULL || offset == 0 || offset > msg_size) ==> VF_RV == EINVAL)
 __CPROVER_ensures((VF_RV == 0 && question_size_ret != NULL) ==>
-    (1 + VF_DNS_Q_FIXED <= *question_size_ret && offset + *question_size_ret <= msg_size))
+    (1 + VF_DNS_Q_FIXED <= *question_size_ret && offset <= msg_size &&
+     *question_size_ret <= msg_size - offset))
 ;
 
 /* ------------------------------------------------------------------------------
@@ -198,6 +232,7 @@ dns_msg_rr_get_data(dns_hdr_p hdr, size_t msg_size, size_t offset, uint8_t *name
     size_t *name_len, uint16_t *type, uint16_t *class, uint32_t *ttl,
     uint16_t *data_size, void **data, size_t *rr_size)
 __CPROVER_requires(msg_size <= VF_DNS_MSG_MAX)
+__CPROVER_requires(VF_DNS_OFFSET_ARG(offset))
 __CPROVER_requires(VF_DNS_MSG(hdr, msg_size))
 VF_DNS_NAMEARG_PRE(name, name_len)
 __CPROVER_requires(VF_OUT_OPT(type, uint16_t))
@@ -214,18 +249,21 @@ __CPROVER_assigns(data_size != NULL: *data_size)
 __CPROVER_assigns(data != NULL: *data)
 __CPROVER_assigns(rr_size != NULL: *rr_size)
 __CPROVER_ensures(VF_DNS_GET_DATA_RV)
+/* the name walker's codes (EOPNOTSUPP, ELOOP, EOVERFLOW) only when a name was requested */
+__CPROVER_ensures((name == NULL || name_len == NULL) ==>
+    (VF_RV == 0 || VF_RV == EINVAL || VF_RV == EBADMSG))
 __CPROVER_ensures((hdr == NULL || msg_size == 0 || offset == 0 || offset > msg_size) ==>
     VF_RV == EINVAL)
 /* the record (name + 10 fixed bytes + RDATA) lies inside the message */
 __CPROVER_ensures((VF_RV == 0 && rr_size != NULL) ==>
-    (1 + VF_DNS_RR_FIXED <= *rr_size && offset + *rr_size <= msg_size))
+    (1 + VF_DNS_RR_FIXED <= *rr_size && offset <= msg_size && *rr_size <= msg_size - offset))
 /* the RDATA pointer/length pair lies inside the message ... */
 __CPROVER_ensures((VF_RV == 0 && data != NULL) ==> VF_PTR_INSIDE(*data, hdr, msg_size))
 __CPROVER_ensures((VF_RV == 0 && data != NULL && data_size != NULL) ==>
     VF_INSIDE(*data, *data_size, hdr, msg_size))
 /* ... and is the tail of the record */
 __CPROVER_ensures((VF_RV == 0 && data != NULL && data_size != NULL && rr_size != NULL) ==>
-    ((size_t)((const uint8_t *)*data - (const uint8_t *)hdr) + *data_size == offset + *rr_size))
+    (VF_OFF(*data) - VF_OFF(hdr) + *data_size == offset + *rr_size))
 __CPROVER_ensures((VF_RV == 0 && name != NULL && name_len != NULL) ==>
     (*name_len < __CPROVER_old(*name_len) && name[*name_len] == 0))
 ;
@@ -233,6 +271,7 @@ __CPROVER_ensures((VF_RV == 0 && name != NULL && name_len != NULL) ==>
 static inline int
 dns_msg_rr_get_size(dns_hdr_p hdr, size_t msg_size, size_t offset, size_t *rr_size)
 __CPROVER_requires(msg_size <= VF_DNS_MSG_MAX)
+__CPROVER_requires(VF_DNS_OFFSET_ARG(offset))
 __CPROVER_requires(VF_DNS_MSG(hdr, msg_size))
 __CPROVER_requires(VF_OUT_OPT(rr_size, size_t))
 __CPROVER_assigns(rr_size != NULL: *rr_size)
@@ -240,7 +279,7 @@ __CPROVER_ensures(VF_RV == 0 || VF_RV == EINVAL || VF_RV == EBADMSG)
 __CPROVER_ensures((hdr == NULL || msg_size == 0 || offset == 0 || offset > msg_size) ==>
     VF_RV == EINVAL)
 __CPROVER_ensures((VF_RV == 0 && rr_size != NULL) ==>
-    (1 + VF_DNS_RR_FIXED <= *rr_size && offset + *rr_size <= msg_size))
+    (1 + VF_DNS_RR_FIXED <= *rr_size && offset <= msg_size && *rr_size <= msg_size - offset))
 ;
 
 /* Search *rr_count records starting at *offset_ret for `name`. */
@@ -251,6 +290,7 @@ dns_msg_rr_find(dns_hdr_p hdr, size_t msg_size, size_t *offset_ret, size_t *rr_c
 __CPROVER_requires(msg_size <= VF_DNS_MSG_MAX && name_len <= VF_DNS_NAMEBUF_MAX)
 __CPROVER_requires(VF_DNS_MSG(hdr, msg_size))
 __CPROVER_requires(VF_OUT_OPT(offset_ret, size_t))
+__CPROVER_requires(offset_ret == NULL || VF_DNS_OFFSET_ARG(*offset_ret))
 __CPROVER_requires(VF_OUT_OPT(rr_count, size_t))
 __CPROVER_requires(name == NULL || name_len == 0 || __CPROVER_is_fresh(name, name_len))
 __CPROVER_requires(VF_OUT_OPT(type, uint16_t))
@@ -278,7 +318,8 @@ __CPROVER_ensures((hdr != NULL && offset_ret != NULL && rr_count != NULL &&
      *rr_count <= __CPROVER_old(*rr_count)))
 /* found: the record at the returned offset lies inside the message */
 __CPROVER_ensures((VF_RV == 0 && rr_size != NULL) ==>
-    (1 + VF_DNS_RR_FIXED <= *rr_size && *offset_ret + *rr_size <= msg_size))
+    (1 + VF_DNS_RR_FIXED <= *rr_size && *offset_ret <= msg_size &&
+     *rr_size <= msg_size - *offset_ret))
 __CPROVER_ensures((VF_RV == 0 && data != NULL) ==> VF_PTR_INSIDE(*data, hdr, msg_size))
 __CPROVER_ensures((VF_RV == 0 && data != NULL && data_size != NULL) ==>
     VF_INSIDE(*data, *data_size, hdr, msg_size))
@@ -311,6 +352,10 @@ __CPROVER_assigns(msg_size_ret != NULL: *msg_size_ret)
 __CPROVER_ensures(VF_RV == 0 || VF_RV == EINVAL || VF_RV == EBADMSG)
 __CPROVER_ensures(hdr == NULL ==> VF_RV == EINVAL)
 __CPROVER_ensures((hdr != NULL && msgbuf_size < VF_DNS_HDR_SIZE) ==> VF_RV == EBADMSG)
+/* an error leaves every output untouched */
+#define VF_DNS_KEEP(p)	((p) == NULL || *(p) == __CPROVER_old(*(p)))
+__CPROVER_ensures(VF_RV != 0 ==> (VF_DNS_KEEP(qd_off) && VF_DNS_KEEP(an_off) && VF_DNS_KEEP(ns_off) &&
+    VF_DNS_KEEP(ar_off) && VF_DNS_KEEP(rr_count) && VF_DNS_KEEP(msg_size_ret)))
 /* every section offset and the real size lie inside the received bytes, in section order */
 __CPROVER_ensures(VF_RV == 0 ==> (qd_off == NULL || *qd_off == VF_DNS_HDR_SIZE))
 __CPROVER_ensures(VF_RV == 0 ==> (VF_DNS_OFF_OK(an_off, msgbuf_size) &&
